@@ -31,6 +31,53 @@ static const char *rel(const char *root, const char *path)
   return path;
 }
 
+static const char *resolved(DIRFILE *D, const char *code, char *buf, size_t n)
+{
+  int repr;
+  gd_entry_t *T = _GD_FindFieldAndRepr(D, code, &repr, NULL, 0);
+  if (T == NULL) return "~";
+  snprintf(buf, n, "=%s", T->field);
+  return buf;
+}
+
+static int plain_name(const char *nm)
+{
+  size_t l = strlen(nm);
+  if (l == 0 || nm[0] == '.' || strchr(nm, '/')) return 0;
+  if (l > 2 && nm[l - 2] == '.' && strchr("rimaz", nm[l - 1])) return 0;
+  return 1;
+}
+
+static int cmpstr(const void *a, const void *b) { return strcmp(*(char *const *)a, *(char *const *)b); }
+
+/* every code <top-level alias>/<subfield name> (and the same with .r), looked up with _GD_FindFieldAndRepr */
+static void queries(DIRFILE *D)
+{
+  unsigned u, v, ns = 0, nq = 0, k;
+  char **subs = malloc(sizeof(char *) * (D->n_entries + 1));
+  char **qs;
+  char rb[4200];
+  for (u = 0; u < D->n_entries; u++) {
+    const char *sl = strchr(D->entry[u]->field, '/');
+    if (sl) subs[ns++] = strdup(sl + 1);
+  }
+  qsort(subs, ns, sizeof(char *), cmpstr);
+  for (u = 0, v = 0; u < ns; u++) if (u == 0 || strcmp(subs[u], subs[v - 1])) subs[v++] = subs[u];
+  ns = v;
+  qs = malloc(sizeof(char *) * (2 * ns * D->n_entries + 1));
+  for (u = 0; u < D->n_entries; u++) {
+    gd_entry_t *E = D->entry[u];
+    if (E->field_type != GD_ALIAS_ENTRY || !plain_name(E->field)) continue;
+    for (k = 0; k < ns; k++) {
+      char tmp[4200];
+      snprintf(tmp, sizeof tmp, "%s/%s", E->field, subs[k]); qs[nq++] = strdup(tmp);
+      snprintf(tmp, sizeof tmp, "%s/%s.r", E->field, subs[k]); qs[nq++] = strdup(tmp);
+    }
+  }
+  qsort(qs, nq, sizeof(char *), cmpstr);
+  for (k = 0; k < nq && k < 160; k++) printf("Q =%s -> %s\n", qs[k], resolved(D, qs[k], rb, sizeof rb));
+}
+
 static void show(DIRFILE *D, const char *root)
 {
   unsigned u;
@@ -59,6 +106,14 @@ static void show(DIRFILE *D, const char *root)
       printf("X gd_encoding(%d) = %lx, stored %lx\n", i, gd_encoding(D, i), enc);
     free(px); free(sx); free(fn);
   }
+  /* the ARM middle-endian flag of "/ENDIAN ... arm" (printed only when some fragment has it) */
+  for (i = 0; i < n; i++)
+    if ((D->fragment[i].byte_sex & GD_ARM_FLAG) == GD_ARM_ENDIAN && GD_ARM_ENDIAN) {
+      int j;
+      for (j = 0; j < n; j++)
+        printf("R %d arm=%d\n", j, (gd_endianness(D, j) & GD_ARM_FLAG) == GD_ARM_ENDIAN);
+      break;
+    }
   for (u = 0; u < D->n_entries; u++) {
     gd_entry_t *E = D->entry[u];
     const char *k = "?";
@@ -88,13 +143,22 @@ static void show(DIRFILE *D, const char *root)
           free(full);
         }
         break;
-      case GD_BIT_ENTRY: k = "B"; x = strdup(E->in_fields[0]); break;
+      case GD_BIT_ENTRY:
+        k = "B";
+        {
+          char tmp[8400], rb[4200];
+          snprintf(tmp, sizeof tmp, "%s rin=%s", E->in_fields[0], resolved(D, E->in_fields[0], rb, sizeof rb));
+          x = strdup(tmp);
+        }
+        break;
       case GD_LINTERP_ENTRY:
         k = "L";
         {
-          char tmp[8400];
+          char tmp[12800];
           char *full = _GD_MakeFullPath(D, D->fragment[E->fragment_index].dirfd, E->EN(linterp,table), 0);
-          snprintf(tmp, sizeof tmp, "%s tab==%s", E->in_fields[0], full ? rel(root, full) : "?");
+          char rb[4200];
+          snprintf(tmp, sizeof tmp, "%s tab==%s rin=%s", E->in_fields[0], full ? rel(root, full) : "?",
+              resolved(D, E->in_fields[0], rb, sizeof rb));
           x = strdup(tmp);
           if (simple) {
             const char *pub = gd_linterp_tablename(D, E->field);
@@ -135,6 +199,7 @@ static void show(DIRFILE *D, const char *root)
     }
     free(x);
   }
+  queries(D);
   {
     const char *r = gd_reference(D, NULL);
     printf("REF %s%s\n", r ? "=" : "-", r ? r : "");
